@@ -5,6 +5,8 @@ replays exactly.
 
     src   ["pat", w, h, mode]            deterministic pattern (imgkit.pattern), all pixels distinct
           ["gif", w, h, nframes, frame]  animated GIF file (imgkit.gif), image seeked to *frame*
+          ["apng", w, h, nframes, frame, mode]  animated PNG file in mode RGB / RGBA (all frames distinct,
+                                         RGBA frames with an alpha pattern), image seeked to *frame*
           ["uni", w, h, [r,g,b,a]]       uniformly coloured RGBA image
           ["pix", w, h, mode, [..]]      explicit pixel list (putdata)
           ["mode", w, h, m]              pattern in PIL mode m incl. "P+t" (palette + transparent index)
@@ -138,8 +140,24 @@ def source_path(src, fmt):
     return path
 
 
+ANIMATED_KINDS = ("gif", "apng")
+
+
+def is_animated_src(src):
+    return src[0] in ANIMATED_KINDS and src[3] > 1
+
+
+def default_fmt(src):
+    return {"gif": "gif", "apng": "png"}.get(src[0], "png")
+
+
 def _write_source(src, fmt, tmp):
-    if src[0] == "gif":
+    if src[0] == "apng":
+        _, w, h, n, _frame, mode = src
+        frames = [imgkit.pattern(w, h, mode, seed=3 * k + 1) for k in range(n)]
+        frames[0].save(tmp, "PNG", save_all=True, append_images=frames[1:], duration=100, loop=0,
+                       default_image=False, disposal=0, blend=0)
+    elif src[0] == "gif":
         imgkit.gif(src[1], src[2], src[3], path=tmp)
     else:
         im = _pil_source(src)
@@ -164,7 +182,7 @@ def prepare():
 
 
 def needs_file(case):
-    return case.get("kind", "pil") != "pil" or case["src"][0] == "gif"
+    return case.get("kind", "pil") != "pil" or case["src"][0] in ANIMATED_KINDS
 
 
 def reference_source(case):
@@ -173,8 +191,8 @@ def reference_source(case):
 
     src = case["src"]
     if needs_file(case):
-        with Image.open(source_path(src, case.get("fmt", "gif" if src[0] == "gif" else "png"))) as im:
-            if src[0] == "gif":
+        with Image.open(source_path(src, case.get("fmt", default_fmt(src)))) as im:
+            if src[0] in ANIMATED_KINDS:
                 im.seek(src[4])
             im.load()
             return im.copy()
@@ -208,7 +226,7 @@ def build(case, w=None, h=None):
     cls = imgkit.style_class(case["style"])
     src = case["src"]
     kind = case.get("kind", "pil")
-    if src[0] == "gif" and kind == "pil":
+    if src[0] in ANIMATED_KINDS and kind == "pil":
         kind = "pilfile"
     if case.get("fit"):          # automatic sizing (Size.FIT) on the case's terminal
         size_kw = {}
@@ -218,7 +236,7 @@ def build(case, w=None, h=None):
     if kind == "pil":
         img = cls(_pil_source(src), **size_kw)
     else:
-        path = source_path(src, case.get("fmt", "gif" if src[0] == "gif" else "png"))
+        path = source_path(src, case.get("fmt", default_fmt(src)))
         if kind == "file":
             img = cls.from_file(path, **size_kw)
         elif kind == "pilmem":
@@ -231,14 +249,14 @@ def build(case, w=None, h=None):
         else:
             pil = Image.open(path)
             img = cls(pil, **size_kw)
-    if src[0] == "gif":
+    if src[0] in ANIMATED_KINDS:
         img.seek(src[4])
     if case["style"] == "iterm2":
         if case.get("jpeg") is not None:
             img.jpeg_quality = case["jpeg"]
         if case.get("rff") is not None:
             img.read_from_file = case["rff"]
-    return Subject(img, pil, path, src[0] == "gif" and src[3] > 1)
+    return Subject(img, pil, path, is_animated_src(src))
 
 
 def style_args(case):
